@@ -170,9 +170,11 @@ Proof. intros Hg Hp H. unfold upd_queue. rewrite Hg. apply allq_set_queue; auto.
 Lemma get_queue_same_queues s s' qn : queues s' = queues s -> get_queue s' qn = get_queue s qn.
 Proof. unfold get_queue. intros ->. reflexivity. Qed.
 
-Lemma qinv_pop qu u rest : qinv qu -> q_ready qu = u :: rest ->
-  qinv (qu <| q_ready := rest |> <| q_len ::= Z.pred |> <| q_mready ::= Z.pred |>).
-Proof. unfold qinv. cbn. intros (A & B & C & D) E. rewrite E in *. cbn in *. repeat split; auto; lia. Qed.
+Lemma qinv_pop qu u rest : qinv qu -> q_ready qu = u :: rest -> qinv (popped rest qu).
+Proof.
+  unfold qinv. intros (A & B & C & D) E. rewrite q_ready_popped, q_len_popped, q_mready_popped.
+  destruct (popped_keeps rest qu) as (_ & _ & _ & _ & _ & -> & -> & _ & -> & _). rewrite E in *. cbn in *. repeat split; auto; lia.
+Qed.
 
 (* metric-only updates of a queue record keep qinv *)
 Ltac metric_upd := apply allq_upd_queue; [intros q0 Hq0; unfold qinv in *; cbn in *; tauto|].
@@ -201,7 +203,7 @@ Proof.
   all: match goal with |- context [wake_consumer ?st ?c0 ?h0 ?tag0] => destruct (wake_consumer st c0 h0 tag0) as [s9 b9] eqn:Ew;
          apply fst_pair in Ew; cbn [fst]; subst s9; apply QI_wake end.
   all: same_queues.
-  all: assert (H2 : QI (upd_queue s1 (c_queue cm) (fun qu => qu <| q_ready := rest |> <| q_len ::= Z.pred |> <| q_mready ::= Z.pred |>)))
+  all: assert (H2 : QI (upd_queue s1 (c_queue cm) (popped rest)))
          by (eapply allq_upd_queue_at; eauto; eapply qinv_pop; eauto).
   all: destruct (c_noack cm).
   all: repeat (first [ metric_upd | same_queues | apply QI_queue_ackmsg | assumption
@@ -317,7 +319,7 @@ Proof.
     clearbody s1.
     destruct okr; cbn [fst]; [|exact H1].
     same_queues.
-    assert (H2 : QI (upd_queue s1 q (fun qu => qu <| q_ready := rest |> <| q_len ::= Z.pred |> <| q_mready ::= Z.pred |>)))
+    assert (H2 : QI (upd_queue s1 q (popped rest)))
       by (eapply allq_upd_queue_at; eauto; eapply qinv_pop; eauto).
     destruct noack.
     all: repeat (first [ metric_upd | same_queues | apply QI_queue_ackmsg | assumption
